@@ -17,6 +17,7 @@ struct rsv_sched {
 	uint64_t noprogress;       /* steps without a trace event that count as a hang (DET) */
 	unsigned clock_div;        /* virtual microsecond = steps / clock_div */
 	unsigned free_perturb_per_1024; /* FREE: probability of a perturbation at a yield */
+	double stuck_cpu_s;        /* DET watchdog: CPU seconds without a scheduling point that count as a hang (default 12) */
 	unsigned batch;            /* messages attempted between two GVT steps of a worker (0: the core's own constant, 64) */
 };
 
